@@ -151,13 +151,10 @@ fn mle_points(z: &Vec<Fr>, positional: bool) -> Vec<(Vec<Fr>, &'static str, Opti
     long.push(Fr::from(7u64));
     let mut padded = short.clone();
     padded.push(Fr::zero());
-    // a surplus trailing coordinate only stretches the row tensor beyond the matrix; where that still
-    // verifies (the zero polynomial: every inner product is 0) the accepted value is the polynomial's value
-    // at the point without the surplus coordinate
-    vec![
-        (short, "point_too_short", if positional && !z.is_empty() { Some(padded) } else { None }),
-        (long, "point_too_long", if positional { Some(z.clone()) } else { None }),
-    ]
+    // a surplus coordinate is NOT given a reading: the prover refuses such a point (the row vector no
+    // longer fits the matrix) and the verifier can only be satisfied by the zero polynomial, whose inner
+    // products all vanish - that one case is allowed for explicitly where the verdict is judged
+    vec![(short, "point_too_short", if positional && !z.is_empty() { Some(padded) } else { None }), (long, "point_too_long", None)]
 }
 fn mle_over(nv: usize, seed: u64) -> MLE {
     let mut g = rng(seed);
@@ -316,8 +313,10 @@ pub fn check_trait<S: Oversize>(c: &Case, ctx: &mut CaseCtx) -> Result<(), Failu
                     let mut r = rng(sel);
                     let rc = guard(|| S::PC::check(&keys.vk, [&sess.comms[0]], &bad, [v], &pr, &mut sp, Some(&mut r)));
                     let v2 = guard_plain(|| sess.polys[0].polynomial().evaluate(&at));
-                    let consistent = matches!(v2, Out::Ok(x) if x == v);
+                    let zero_poly = what == "point_too_long" && S::is_zero_poly(sess.polys[0].polynomial()) && v.is_zero();
+                    let consistent = matches!(v2, Out::Ok(x) if x == v) || zero_poly;
                     ctx.label_if(accepted(&rc) && consistent, "accepted_value_of_the_positional_reading");
+                    ctx.label_if(accepted(&rc) && zero_poly, "zero_polynomial_verifies_at_a_longer_point");
                     ctx.check(!accepted(&rc) || consistent, sig(P, S::NAME, "check", &format!("{what}_accepted")), || format!("{what}: verifier accepted a point of the wrong length"))?;
                 }
             }
@@ -644,7 +643,7 @@ pub fn spec() -> PropertySpec {
         rule: "Request kinds x magnitudes around the boundary (supported+1, max+1, 2max+1, supported+2; key variables +1/+2/-2; hiding 0 and beyond the supported hiding bound) inside otherwise valid generated scenarios: a polynomial larger than the key (degree / total degree / number of variables) handed to commit and to open; hiding bound 0, hiding bound beyond the key, hiding without an RNG; points with too few / too many coordinates handed to open and to check; a query for a polynomial that was not supplied, a commitment or an evaluation missing on the verifier side; mismatched labels between polynomial and commitment; trim beyond the parameters; a commitment presented to check / batch_check under a degree bound outside the enforced set (preferably just below the bound it was made for); an unsupported or inconsistent degree bound handed to commit (beyond supported / beyond max / not enforced / below the polynomial's degree) and to trim (an enforced-bound list containing, at any position and possibly twice, a bound above the supported degree for SonicKZG10 / above the maximum degree for MarlinKZG10, which by design serves bounds up to max_degree - there the committer must still refuse degrees above the supported degree); setup with degree 0, zero / missing / odd variables; the same for KZG10 and multilinear PST through their inherent APIs. Oracle: the entry point returns Err or aborts - never a commitment, proof or Ok(true). Where a scheme defines the request instead of refusing it (a longer point whose extra coordinates are ignored, an open that does not look at labels) the check demands that whatever is served is sound: no value the polynomial does not take verifies. In-domain requests never aborting is C01's oracle. Non-trivial: magnitude exactly one past the boundary.",
         assumptions: vec![
             "IPA treats any hiding bound (including 0) as 'hiding' and Ligero parameters do not bound the polynomial size: not out of domain for those schemes",
-            "multilinear Ligero / Brakedown verifiers read a point positionally (tensor vectors, inner products that stop at the shorter operand) and the commitment does not record the number of variables: a point lacking its last coordinate is read as if that coordinate were 0, a surplus trailing coordinate only stretches the row tensor (and still verifies for the zero polynomial); accepting the polynomial's value at the zero-padded / truncated point is treated as scheme-defined, any other accepted value is a violation",
+            "multilinear Ligero / Brakedown verifiers read a point positionally (tensor vectors, inner products that stop at the shorter operand) and the commitment does not record the number of variables: a point lacking its last coordinate is read as if that coordinate were 0, accepting the polynomial's value at the zero-padded point is treated as scheme-defined, any other accepted value is a violation; a point with a surplus coordinate is refused by the prover and verifies only for the zero polynomial (every inner product vanishes), which is allowed for explicitly - for any other polynomial it is a violation",
             "PST13 / multilinear PST *commit* with fewer variables than the key is scheme-defined and not asserted; multilinear PST *open* refuses such a polynomial on this tree and is asserted to",
             "schemes without degree-bound or hiding support (PST13: bounds; Hyrax: both fields; Ligero/Brakedown: both, documented as 'does not support hiding') ignore those LabeledPolynomial fields, and the repository's own test templates pass hiding bounds to them: treated as defined behaviour, not as an out-of-domain request",
         ],
